@@ -167,7 +167,7 @@ open PycModel.DeclSkel PycModel.TypeModify PycModel.View PycModel.FullExpr PycMo
 
 of any length - specifiers: qualifiers, storage classes (other than `typedef`), function specifiers,
 type keywords and typedef names of the environment, at least one type specifier; declarators:
-pointers with qualifiers, array and `()` suffixes (no grouping parentheses), any depth; the
+pointers with qualifiers, array and `()` suffixes, grouping parentheses (`(*fp[3])()`), any depth; the
 declared names not typedef names - `_parse_declaration` returns `dc.vals`: **one `Decl` per
 declared name, in source order**, each with its own name, modifier chain (`declarators_are_read_inside_out`:
 the derivations in C's inside-out order) and initializer, all carrying every specifier list
@@ -222,14 +222,14 @@ example : ∃ s',
       first := { d := .ptr [[]] (.arr (.name "p") (some (.const "INT_CONST_DEC" "3" "int"))), init := some (.id "x") },
       more := [{ d := .name "q", init := none }] }
   have hwf : WFDcl dc := by
-    refine ⟨by simp [dc, SpecToks, quals3, storage5, typeSpecSimple, isTypeTok], ?_, rfl, ⟨?_, trivial, ?_⟩, ?_⟩
+    refine ⟨by simp [dc, SpecToks, quals3, storage5, typeSpecSimple, isTypeTok], ?_, rfl, ⟨?_, ?_⟩, ?_⟩
     · intro t ht; simp only [dc, List.mem_cons, List.not_mem_nil, or_false] at ht
       rcases ht with rfl | rfl | rfl | rfl <;> exact ⟨by decide, by decide⟩
     · refine .ptr _ _ (by simp) (by simp) (.arr _ _ (.name _) rfl ?_) rfl
       intro e h; cases h; exact .const _ _ _ _ (by decide)
     · intro e h; cases h; exact .id _ _
     · intro it hit; simp only [dc, List.mem_singleton] at hit; subst hit
-      exact ⟨.name _, trivial, by intro e h; cases h⟩
+      exact ⟨.name _, by intro e h; cases h⟩
   have hs := ParenExpr.seesT_init (dc.flat ++ [])
   obtain ⟨s', hr, hs', _⟩ := parse_declaration dc hwf (fun _ _ => rfl) _ [] hs 200 (by decide)
   exact ⟨s', hr, _, hs'⟩
